@@ -7,6 +7,7 @@ prepare = kbridge.prepare_for('C03')    # regenerates Generated/KernelRun03.lean
 from vlib.util import VERIF, REPO
 ASSUMPTIONS = ['"observable trace" = what process bodies and probe callbacks see (env.now, values, exceptions, order)',
                'hash-seed independence is sampled (fresh interpreters with several PYTHONHASHSEED values), not a theorem',
+               'hash-seed scenarios configure schedulers with integer weights (the annotated type); WFQ over string class ids with non-integer weights sums them in set order and is hash-seed dependent on the unchanged tree (findings/demos/C03_wfq_float_weights_hashseed.py), not generated',
                'run(until=event) for an event that fails re-raises its exception after all of its waiters have run (repaired in /repo)']
 SPEC = [(3, 'plan:time'), (3, 'plan:outcome'), (2, 'plan:cond'), (2, 'plan:intr'), (2, 'plan:res'), (2, 'plan:store'), (1, 'untilfail'), (1, 'untilreact'), (2, 'crashplan'), (2, 'untiljoin')]
 
